@@ -39,6 +39,8 @@ class ExprMixin:
         hm = self.config.get("globals", {}).get((module.name, name))
         if hm is not None:
             return hm
+        if module.name == "labrea._missing" and name == "MISSING":
+            return MISSING      # the Enum member Missing.token: a unique sentinel compared by identity
         if name in module.classes:
             return ClassRef(module.classes[name])
         if name in module.functions:
